@@ -294,7 +294,7 @@ func (s *Sys) execCrash(op []string) string {
 		_ = t2.Close()
 		if d2 != newD {
 			if os.Getenv("VERIF_DEBUG") != "" {
-				fmt.Fprintf(os.Stderr, "DEBUG retrydiffers at %d/%d\nNEWAVAIL %v\nGOTAVAIL %s\nWRITES:", i, n, newT.avail, d2[:60])
+				fmt.Fprintf(os.Stderr, "DEBUG retrydiffers at %d/%d\nNEWFULL %s\nGOTFULL %s\nWRITES:", i, n, newD, d2)
 				for j, w := range writes {
 					fmt.Fprintf(os.Stderr, "\n [%d]", j)
 					for _, o := range w {
